@@ -24,7 +24,10 @@
      cf_fix_zerolen  ares_socket_recvfrom stores 0 in *read_bytes for an empty UDP datagram
                   (/repo 00b9f6e, found with C20); without it read_conn_packets uses an
                   uninitialised length: undefined behaviour
-   With all three false the model is the pinned tree. *)
+     cf_udp_garbage_drop  an unparsable UDP datagram is dropped instead of being treated as a
+                  connection error (fixes/C05-udp-garbage-drop.patch: PROPOSED, NOT APPLIED - a
+                  variant that is not the code in /repo; [fixed_cfg] has it false); TCP is unchanged
+   With all four false the model is the pinned tree. *)
 From Coq Require Import ZArith List Bool Lia.
 From CAres.Base Require Import Outcome CInt.
 From CAres.Gen Require Import Consts LeafFns.
@@ -55,6 +58,8 @@ Definition skip8 (b : bytes) : bytes := skipn 8 b.
 Record question := mkQn { qn_name : bytes; qn_type : Z; qn_class : Z }.
 
 (* what ares_dns_parse yields, as far as the accept path looks at it; p_tag is ghost;
+   p_cookie is the result of ares_dns_cookie_fetch: the FIRST cookie option of the OPT RR, None
+   when there is none or when it has no content;
    p_ttl abstracts the TTL computation of ares_qcache_insert (min TTL / SOA minimum) *)
 Record packet := mkPkt {
   p_tag : Z; p_id : Z; p_qr : bool; p_opcode : Z; p_tc : bool; p_rcode : Z;
@@ -93,7 +98,7 @@ Record config := mkCfg {
   cf_dns0x20 : bool; cf_igntc : bool; cf_nocheckresp : bool; cf_usevc : bool;
   cf_max_tries : Z;                      (* ares_slist_len(servers) * tries *)
   cf_qcache : bool; cf_qcache_max_ttl : Z;
-  cf_fix_conn : bool; cf_fix_qr : bool; cf_fix_zerolen : bool }.
+  cf_fix_conn : bool; cf_fix_qr : bool; cf_fix_zerolen : bool; cf_udp_garbage_drop : bool }.
 
 Inductive output :=
 | OCallback (tok status : Z) (data : option Z)   (* data = tag of the record handed over *)
@@ -209,12 +214,6 @@ Definition requeue_query (cfg : config) (st : chan) (q : query) (status : Z) (in
 (* ------------------------------------------------------------------------------------- *)
 (* ares_cookie_validate (src/lib/ares_cookie.c)                                           *)
 (* ------------------------------------------------------------------------------------- *)
-Definition timeval_is_set (sec usec : Z) : bool :=
-  match c_timeval_is_set sec usec with
-  | Ok v => negb (v =? ARES_FALSE)
-  | _ => false
-  end.
-
 Definition ck_clear : cookie := mkCk C05_COOKIE_INITIAL (repeat 0 8) [] 0 0.
 
 Inductive verdict := VOk | VDrop.
@@ -224,23 +223,29 @@ Inductive verdict := VOk | VDrop.
 Definition memcmp8_eq (a b : bytes) : outcome bool :=
   guard ((8 <=? zlen a) && (8 <=? zlen b)) OutOfBounds (Ok (bytes_eqb (first8 a) (first8 b))).
 
-Definition cookie_validate (cfg : config) (st : chan) (q : query) (p : packet) (sv : server)
-           (now_sec now_usec : Z) : outcome (chan * list output * verdict) :=
-  let ck := sv_cookie sv in
-  let resp := p_cookie p in
+(* the decision of ares_cookie_validate and what it does to the server's cookie record, as a
+   function of the record, the cookie of the request, the cookie of the response, its rcode and
+   the time (the part that does not touch the channel) *)
+Inductive cdec :=
+| CDrop          (* ARES_EBADRESP: drop the response *)
+| COk            (* ARES_SUCCESS *)
+| CRequeue.      (* BADCOOKIE that echoes our cookie: count, requeue, drop *)
+
+Definition cookie_decide (ck : cookie) (reqc resp : option bytes) (rcode now_sec now_usec : Z)
+  : outcome (cookie * cdec) :=
   let resp_len := match resp with Some c => zlen c | None => 0 end in
   (* Invalid cookie length, drop *)
   if (match resp with Some _ => (resp_len <? 8) || (40 <? resp_len) | None => false end)
-  then Ok (st, [], VDrop)
+  then Ok (ck, CDrop)
   else
-  match q_cookie q with
-  | None => Ok (st, [], VOk)                       (* didn't request cookies *)
+  match reqc with
+  | None => Ok (ck, COk)                           (* didn't request cookies *)
   | Some req =>
       do mismatch <- match resp with
                      | Some rc => do e <- memcmp8_eq req rc; Ok (negb e)
                      | None => Ok false
                      end;
-      if mismatch then Ok (st, [], VDrop)
+      if mismatch then Ok (ck, CDrop)
       else
       (* record that we received a server cookie *)
       do ck1 <- match resp with
@@ -252,27 +257,35 @@ Definition cookie_validate (cfg : config) (st : chan) (q : query) (p : packet) (
                     else Ok ck
                 | None => Ok ck
                 end;
-      let st1 := update_cookie st (sv_idx sv) ck1 in
-      if p_rcode p =? ARES_RCODE_BADCOOKIE then
+      if rcode =? ARES_RCODE_BADCOOKIE then
         match resp with
-        | None => Ok (st1, [], VDrop)              (* BADCOOKIE without cookie *)
-        | Some _ =>
-            let q1 := q_set_cookie_try q (q_cookie_try q + 1) in
-            let q2 := if COOKIE_RESEND_MAX <=? q_cookie_try q1 then q_set_tcp q1 true else q1 in
-            let '(st2, outs) := requeue_query cfg st1 q2 ARES_SUCCESS false None in
-            Ok (st2, outs, VDrop)
+        | None => Ok (ck1, CDrop)                  (* BADCOOKIE without cookie *)
+        | Some _ => Ok (ck1, CRequeue)
         end
-      else if 8 <? resp_len then Ok (st1, [], VOk)
+      else if 8 <? resp_len then Ok (ck1, COk)
       else if ck_state ck1 =? C05_COOKIE_SUPPORTED then
-        let ck2 := if negb (timeval_is_set (ck_uts_sec ck1) (ck_uts_usec ck1))
-                   then mkCk (ck_state ck1) (ck_client ck1) (ck_server ck1) now_sec now_usec
-                   else ck1 in
-        Ok (update_cookie st (sv_idx sv) ck2, [], VDrop)
+        do isset <- c_timeval_is_set (ck_uts_sec ck1) (ck_uts_usec ck1);
+        Ok (if isset =? ARES_FALSE
+            then mkCk (ck_state ck1) (ck_client ck1) (ck_server ck1) now_sec now_usec
+            else ck1, CDrop)
       else if ck_state ck1 =? C05_COOKIE_GENERATED then
-        Ok (update_cookie st (sv_idx sv)
-              (mkCk C05_COOKIE_UNSUPPORTED (ck_client ck_clear) (ck_server ck_clear)
-                    now_sec now_usec), [], VOk)
-      else Ok (st1, [], VOk)
+        Ok (mkCk C05_COOKIE_UNSUPPORTED (ck_client ck_clear) (ck_server ck_clear) now_sec now_usec, COk)
+      else Ok (ck1, COk)
+  end.
+
+Definition cookie_validate (cfg : config) (st : chan) (q : query) (p : packet) (sv : server)
+           (now_sec now_usec : Z) : outcome (chan * list output * verdict) :=
+  do r <- cookie_decide (sv_cookie sv) (q_cookie q) (p_cookie p) (p_rcode p) now_sec now_usec;
+  let '(ck1, d) := r in
+  let st1 := update_cookie st (sv_idx sv) ck1 in
+  match d with
+  | CDrop => Ok (st1, [], VDrop)
+  | COk => Ok (st1, [], VOk)
+  | CRequeue =>
+      let q1 := q_set_cookie_try q (q_cookie_try q + 1) in
+      let q2 := if COOKIE_RESEND_MAX <=? q_cookie_try q1 then q_set_tcp q1 true else q1 in
+      let '(st2, outs) := requeue_query cfg st1 q2 ARES_SUCCESS false None in
+      Ok (st2, outs, VDrop)
   end.
 
 (* ------------------------------------------------------------------------------------- *)
@@ -361,6 +374,8 @@ Definition process_answer (cfg : config) (st : chan) (cn : conn) (sv : server)
   match d with
   | DEmpty => Ok (st, [])                                  (* alen == 0 *)
   | DMalformed tag =>                                      (* EBADRESP -> handle_conn_error *)
+      if cf_udp_garbage_drop cfg && negb (cn_tcp cn) then Ok (st, [])
+      else
       let '(st1, outs) := close_connection cfg st (cn_id cn) ARES_EBADRESP in
       Ok (st1, OServerFail (sv_idx sv) tag :: OConnError (cn_id cn) :: outs)
   | DParsed p =>
@@ -421,23 +436,26 @@ Definition questions_match (cfg : config) (cn : conn) (q : query) (p : packet) :
 (* the DNS-cookie checks: a cookie in the response is well formed and echoes the client cookie
    the query was sent with; once the server proved cookie support a response must carry a
    server cookie (a BADCOOKIE error that echoes the client cookie is a genuine signal) *)
-Definition cookie_ok (ck : cookie) (q : query) (p : packet) : bool :=
-  match p_cookie p with
+Definition cookie_ok_core (ck : cookie) (reqc resp : option bytes) (rcode : Z) : bool :=
+  match resp with
   | Some pc =>
       (8 <=? zlen pc) && (zlen pc <=? 40) &&
-      match q_cookie q with
+      match reqc with
       | None => true
       | Some rc => bytes_eqb (first8 rc) (first8 pc) &&
                    ((8 <? zlen pc) || negb (ck_state ck =? C05_COOKIE_SUPPORTED) ||
-                    (p_rcode p =? ARES_RCODE_BADCOOKIE))
+                    (rcode =? ARES_RCODE_BADCOOKIE))
       end
   | None =>
-      match q_cookie q with
+      match reqc with
       | None => true
       | Some _ => negb (ck_state ck =? C05_COOKIE_SUPPORTED) &&
-                  negb (p_rcode p =? ARES_RCODE_BADCOOKIE)
+                  negb (rcode =? ARES_RCODE_BADCOOKIE)
       end
   end.
+
+Definition cookie_ok (ck : cookie) (q : query) (p : packet) : bool :=
+  cookie_ok_core ck (q_cookie q) (p_cookie p) (p_rcode p).
 
 Definition authentic_b (cfg : config) (cn : conn) (sv : server) (src : Z) (p : packet)
            (q : query) : bool :=
@@ -573,10 +591,10 @@ Definition init_chan (servers : list server) : chan := mkChan [] [] servers [] [
 (* ------------------------------------------------------------------------------------- *)
 Definition fixed_cfg (dns0x20 igntc nocheckresp usevc : bool) (max_tries : Z) (qcache : bool)
            (max_ttl : Z) : config :=
-  mkCfg dns0x20 igntc nocheckresp usevc max_tries qcache max_ttl true true true.
+  mkCfg dns0x20 igntc nocheckresp usevc max_tries qcache max_ttl true true true false.
 Definition pinned_cfg (dns0x20 igntc nocheckresp usevc : bool) (max_tries : Z) (qcache : bool)
            (max_ttl : Z) : config :=
-  mkCfg dns0x20 igntc nocheckresp usevc max_tries qcache max_ttl false false false.
+  mkCfg dns0x20 igntc nocheckresp usevc max_tries qcache max_ttl false false false false.
 
 (* the provenance monitor: is there a live query for which this packet is authentic, and
    which one (token) *)
